@@ -121,6 +121,21 @@ def _struct_escape_refs(label, body, m, arm):
                         hit = True
                     if hit:
                         out |= by_field.get(fname, set())
+    # (1') `helper(self).hash(state)`: the whole struct is hashed (derived Hash: field by field)
+    if label == "hash":
+        for c in walk(body):
+            if c.get("k") in ("Call", "MethodCall"):
+                cal = (c.get("callee") or "") + " " + (c.get("inst") or "")
+                if "hash::Hash::hash" in cal:
+                    operands = ([c.get("recv")] if c.get("k") == "MethodCall" else []) + list(c.get("args") or [])
+                    for o_ in operands:
+                        o_ = peel(o_) if isinstance(o_, dict) else {}
+                        while isinstance(o_, dict) and o_.get("k") == "AddrOf":
+                            o_ = peel(o_["a"])
+                        if o_ is holder:
+                            recognised = True
+                            for hs in by_field.values():
+                                out |= hs
     # (2) `helper(self) == helper(other)`
     for c in walk(body):
         sides = None
@@ -441,6 +456,21 @@ def custom_sections(F):
         if c.get("k") == "Call" and (c.get("callee") or "").endswith("CustomSection::<'a>::new_borrowed") or (c.get("k") == "Call" and (c.get("callee") or "").endswith("new_borrowed")):
             a0, a1 = peel(c["args"][0]), peel(c["args"][1])
             okn = a0.get("k") == "Field" and a0["name"] == "0" and a1.get("k") == "Field" and a1["name"] == "1"
+            if not okn and a0.get("k") == "Path" and a1.get("k") == "Path":
+                # destructured instead of projected: `.map(|(name, data)| CustomSection::new_borrowed(name, data))` —
+                # the arguments are the first and second binding of one tuple pattern
+                from vlib.facts import binding_site
+                p0, _s0, _k0 = binding_site(new["body"], a0.get("res", {}).get("hid"))
+                tup = next((t for t in walk(p0 or {}) if t.get("k") == "Tuple" and len(t.get("pats") or []) == 2), None)
+                if tup is None:
+                    for cl_ in walk(new["body"]):
+                        if cl_.get("k") == "Closure":
+                            for pp_ in cl_.get("params") or []:
+                                for t in walk(pp_):
+                                    if t.get("k") == "Tuple" and len(t.get("pats") or []) == 2:
+                                        tup = t
+                if tup is not None:
+                    okn = tup["pats"][0].get("hid") == a0.get("res", {}).get("hid") and tup["pats"][1].get("hid") == a1.get("res", {}).get("hid")
     r.ob(okn)
     if not okn:
         r.violate("%s | tuple order" % new["path"], F.loc(new), "CustomSections::new does not map tuple .0→name and .1→data")
